@@ -32,10 +32,15 @@ TEMPLATES = [
     '            if D(4):\n                break\n        T(5, i)\n    return T(6)\n',
     'def f(a, b, c):\n    x = T(1)\n    try:\n        if D(2):\n            raise E2()\n    except E2 as {n}:\n        x = T(3, x)\n    while D(4):\n'
     '        if D(5):\n            return T(6, x)\n        x = T(7, x)\n    return x\n',
+    'def f(a, b, c):\n    {n} = T(1)\n    for i in L(2):\n        {n} = T(3, {n})\n    return T(4, {n})\n',
+    'def f(a, b, c):\n    return T(1, [T(2, {n}) for {n} in L(3)])\n',
+    'def f(a, b, c):\n    g = lambda {n}: T(1, {n})\n    if D(2):\n        return T(3, g(a))\n    return T(4, g(b))\n',
+    'def f(a, b, c):\n    return T(1, sum(T(2, {n}) for {n} in L(3)))\n',
     'f = lambda {n}, b, c: T(1, {n}, b)\n',
     'f = lambda a, b, {n}=5: (T(1, {n}), T(2, a))\n',
 ]
-TEMPLATE_NAMES = ['do_return', 'retval_', 'break_', 'continue_', 'lscope', 'fscope', 'lscope_1', 'get_state', 'loop_body', 'itr']
+TEMPLATE_NAMES = ['do_return', 'retval_', 'break_', 'continue_', 'lscope', 'fscope', 'lscope_1', 'get_state', 'loop_body', 'itr', 'vars_',
+                  'set_state', 'if_body', 'loop_test']
 
 GLOBALS_PRELUDE = '\n' + '\n'.join('%s = %d' % (n, 1001 + i) for i, n in enumerate(
     ['get_state', 'set_state', 'if_body', 'else_body', 'loop_body', 'loop_test', 'itr', 'do_return', 'retval_', 'fscope'])) + '\n'
@@ -166,7 +171,7 @@ def check(run):
                 first, rest = open(os.path.join(cdir, fnm)).read().split('\n', 1)
                 csrcs.append(rest)
                 cvecs.append(eval(first.split(':', 1)[1]))
-    tsrcs = [t.replace('{n}', n) for t in TEMPLATES for n in (TEMPLATE_NAMES if not quick else rnd.sample(TEMPLATE_NAMES, 5) + ['do_return', 'lscope'])]
+    tsrcs = [t.replace('{n}', n) for t in TEMPLATES for n in (TEMPLATE_NAMES if not quick else rnd.sample(TEMPLATE_NAMES, 5) + ['do_return', 'lscope', 'fscope', 'vars_'])]
     srcs = tsrcs + srcs
     allsrc = csrcs + srcs
     kinds = ['corpus'] * len(csrcs) + ['template'] * len(tsrcs) + skinds
